@@ -255,6 +255,18 @@ def _schedule(step):
   return jnp.asarray(0.25, jnp.float32) / (jnp.asarray(1.0, jnp.float32) + jnp.asarray(step).astype(jnp.float32))
 
 
+def _py_schedule(step):
+  """A schedule written in plain Python arithmetic: what it computes depends on the type of `step` it is
+  handed (a traced / jax integer gives float32 arithmetic, a NumPy integer from a restored checkpoint
+  float64 rounded once), so the optimizer must hand it the same kind of count in both runs."""
+  return 0.05 * (1 + step / 10) ** -0.5
+
+
+def _lr_of(cfg):
+  v = cfg.get("lr_callable")
+  return _py_schedule if v == "python" else (_schedule if v else 0.25)
+
+
 DS_DEFAULTS = dict(
     block_size=4, beta1=0.9, beta2=0.999, weight_decay=0.0, start_preconditioning_step=1,
     preconditioning_compute_steps=1, statistics_compute_steps=1,
@@ -279,7 +291,7 @@ def make_ds(cfg):
       kw[k] = v
   kw["graft_type"] = ds.GraftingType(kw["graft_type"])
   kw["precondtioner_type"] = ds.PreconditionerType(kw["precondtioner_type"])
-  lr = _schedule if cfg.get("lr_callable") else 0.25
+  lr = _lr_of(cfg)
   mode = cfg.get("mode", "plain")
   if mode == "pmap" or cfg.get("batch_axis_name"):
     kw["batch_axis_name"] = "batch"
@@ -297,7 +309,7 @@ def make_sm3(cfg):
   from precondition import sm3
   kw = {k: cfg[k] for k in ("beta1", "beta2", "diagonal_epsilon", "weight_decay",
                             "normalize_grads") if k in cfg}
-  lr = _schedule if cfg.get("lr_callable") else 0.25
+  lr = _lr_of(cfg)
   return sm3.sm3(lr, **kw)
 
 
@@ -322,7 +334,7 @@ def tf_options(cfg):
 
 def make_tf(cfg):
   from precondition.tearfree import optimizer
-  lr = _schedule if cfg.get("lr_callable") else 0.25
+  lr = _lr_of(cfg)
   return optimizer.tearfree(lr, tf_options(cfg))
 
 
